@@ -2,6 +2,7 @@ package kioshun
 
 import (
 	"math"
+	"runtime"
 	"sync/atomic"
 	"time"
 )
@@ -223,7 +224,19 @@ func (c *Cache[K, V]) syncMutate(s *shard[K, V], apply func()) error {
 		return ErrCacheClosed
 	}
 
-	c.drainShardQueue(s)
+	// Writes accepted before this call own ring positions below head. A producer
+	// may have reserved one without publishing it yet, and tryDequeue stops at such
+	// a slot, leaving later, already acknowledged writes behind it to be applied
+	// after this mutation. Publication is only a store away, so wait until the
+	// consumer has passed every position reserved so far.
+	target := s.queue.head.Load()
+	for {
+		c.drainShardQueue(s)
+		if int64(s.queue.tail.Load()-target) >= 0 {
+			break
+		}
+		runtime.Gosched()
+	}
 
 	verifYield(332)
 	s.mu.Lock()
